@@ -358,6 +358,28 @@ fn install_panic_hook() {
             LAST_PANIC.with(|p| *p.borrow_mut() = Some(PanicInfo { msg, file, line }));
         } else {
             default(info);
+            // Safety net: a panic that no `catch` of the harness guards. If it was raised inside the
+            // library under test it is reported as a violation of the property being checked (the
+            // execution it happened in belongs to that property's domain) with the panic as the
+            // replay artefact; a panic raised in harness code is a machinery failure, never a verdict.
+            if let Some(c) = CTX.get() {
+                if file.starts_with("/repo/") {
+                    let pi = PanicInfo { msg: msg.clone(), file: file.clone(), line };
+                    let dir = format!("{VERIF_DIR}/replays/{}", c.prop);
+                    let _ = std::fs::create_dir_all(&dir);
+                    let path = format!("{dir}/violation_{}_unguarded_panic.json", c.tier.name());
+                    let sig = format!("{}.library_panic_outside_guard.{}", c.prop.to_lowercase(), pi.sig());
+                    let body = json!({"property": c.prop, "signature": sig, "detail": format!("{file}:{line} {msg}"),
+                        "replay": {"world": "panic", "file": file, "line": line, "message": msg, "backtrace": format!("{}", std::backtrace::Backtrace::force_capture())},
+                        "how_to_replay": format!("cd /verif && ./check {} {}   (the panic is deterministic: same configuration, same place)", c.prop, c.tier.name())});
+                    let _ = std::fs::write(&path, serde_json::to_string_pretty(&body).unwrap());
+                    println!("VIOLATION property={} replay={} sig={} :: library panic outside any guard of the harness: {file}:{line} {msg}", c.prop, path, sig);
+                    std::process::exit(1);
+                } else {
+                    println!("MACHINERY-FAILURE: harness panic at {file}:{line}: {msg}");
+                    std::process::exit(2);
+                }
+            }
         }
     }));
 }
